@@ -44,6 +44,9 @@ CHECKS = {
  'C12': dict(cat='fault_enumeration', tech='fault enumeration by symbolic choice variables over the real retry/VM/LightSet code (symx), z3 for colour values',
    text='Six scripts (plain sequence, group/location fan-out, zone, matrix, broadcast, light loop) with symbolic colours run with every fail/succeed vector for the requests to one faulty device (up to 4 consecutive failures per request): the script reaches its end, no request is tried more than 3 times, and the commands reaching all other devices equal the fault-free run on the same values (z3). Twelve unknown-name and capability-mismatch commands between ordinary commands: only the ordinary commands arrive. Discovery with each of plain/multizone/matrix/LAN faulty at every construction-time request: never raises, False leaves the directory unchanged, True yields lights a script can address with every command kind.',
    note='Not answering = lifxlan raises WorkflowException; LAN broadcasts (fire-and-forget) are not made to fail; scripts avoid get from the faulty device.', ref='4/C12'),
+ 'C10': dict(cat='exploration', tech=SYMX + ' with time as a symbolic variable (z3 LRA)',
+   text='Every sequence of up to 3 (quick) / 4 (thorough) statements (timed delay, zero delay, time-of-day wait) runs on the real Clock with symbolic start instant, delay values, work before each statement, tick length and tick phase; z3 shows on every path that the k-th delay never ends before origin + sum of delays, ends within one tick when the script was not late, returns at once without accumulating lateness when late, that a zero delay never blocks, and that the time line restarts at the return of a time-of-day wait. Five scripts on the real VM bound to the real Clock (logical and raw units, and-lists, loops, unit switch) with symbolic time registers and transmission times: every command is sent within the window its delays allow.',
+   note='Clock thread modelled sequentially (Event.wait returns at the next tick); at most 4 ticks per delay; interleavings with the clock thread are not covered here. time/threading/datetime in bardolph.lib.clock are stubs.', ref='4/C10'),
 }
 PENDING = {
 }
